@@ -24,7 +24,8 @@ Supported statement shape of operator() (anything else is not guessed: Untransla
     if(<test>) { data-><target>.remove|removeListener([data->event,] data->handle); }     (no else)
     data->listener(std::forward<Args>(args)...);
   <test> for CounterRemover: a comparison between `--data->triggerCount` / `data->triggerCount--`
-  and an integer literal;  for ConditionalRemover: exactly one call `data->shouldRemove(args...)`
+  and an integer literal, optionally behind a guard `data->triggerCount <cmp> literal || ...` (when
+  the guard holds the decrement is not executed);  for ConditionalRemover: exactly one call `data->shouldRemove(args...)`
   or `data->shouldRemove()` (so the condition is evaluated exactly once per activation)."""
 from leafcore import *  # noqa: F401,F403
 
@@ -206,26 +207,44 @@ def _counter(spec):
     cond, i_if, i_call, params = _body_shape(method, body, target, 'CounterRemover::Wrapper')
     seen = []
 
-    def atom(n):
-        if n.get('kind') == 'UnaryOperator' and n.get('opcode') == '--':
-            if _data_member(kids(n)[0]) != 'triggerCount':
-                raise Untranslatable('CounterRemover: the decremented object is not data->triggerCount')
-            seen.append(1)
-            return 'n_before' if n.get('isPostfix') else 'n_after'
-        if n.get('kind') in ('UnaryOperator', 'MemberExpr', 'DeclRefExpr', 'CXXOperatorCallExpr', 'CallExpr', 'CXXMemberCallExpr', 'CompoundAssignOperator'):
-            raise Untranslatable('CounterRemover: unsupported operand in the test (%s)' % n.get('kind'))
-        return None
+    def make_atom(allow_read):
+        def atom(n):
+            if n.get('kind') == 'UnaryOperator' and n.get('opcode') == '--':
+                if _data_member(kids(n)[0]) != 'triggerCount':
+                    raise Untranslatable('CounterRemover: the decremented object is not data->triggerCount')
+                if allow_read:
+                    raise Untranslatable('CounterRemover: decrement inside the guard of the test')
+                seen.append(1)
+                return 'n_before' if n.get('isPostfix') else 'n_after'
+            if n.get('kind') == 'MemberExpr' and _data_member(n) == 'triggerCount' and allow_read:
+                return 'n_before'
+            if n.get('kind') in ('UnaryOperator', 'MemberExpr', 'DeclRefExpr', 'CXXOperatorCallExpr', 'CallExpr', 'CXXMemberCallExpr', 'CompoundAssignOperator'):
+                raise Untranslatable('CounterRemover: unsupported operand in the test (%s)' % n.get('kind'))
+            return None
+        return atom
+
+    def comparison(e, allow_read):
+        e = strip(e)
+        if e.get('kind') != 'BinaryOperator' or e.get('opcode') not in CMPOPS:
+            raise Untranslatable('CounterRemover: the test is not a comparison')
+        return Tr(make_atom(allow_read), 'Z').expr(e)
     c = strip(cond)
-    if c.get('kind') != 'BinaryOperator' or c.get('opcode') not in CMPOPS:
-        raise Untranslatable('CounterRemover: the test is not a comparison')
-    term = Tr(atom, 'Z').expr(c)
+    if c.get('kind') == 'BinaryOperator' and c.get('opcode') == '||':
+        # `guard || test`: the guard reads data->triggerCount without changing it; when it holds the
+        # decrement is not executed (short circuit)
+        lhs, rhs = kids(c)
+        guard = comparison(lhs, True)
+        term = comparison(rhs, False)
+        step = '(let n_before := n in if %s then (n_before, true) else let n_after := dec n in (n_after, %s))' % (guard, term)
+    else:
+        term = comparison(c, False)
+        step = '(let n_before := n in let n_after := dec n in (n_after, %s))' % term
     if len(seen) != 1:
         raise Untranslatable('CounterRemover: expected exactly one decrement of data->triggerCount in the test')
     others = [x for x in walk(body) if x.get('kind') in ('UnaryOperator', 'CompoundAssignOperator', 'BinaryOperator')
               and x.get('opcode') in ('--', '++', '-=', '+=', '=')]
     if len(others) != 1:
         raise Untranslatable('CounterRemover: operator() modifies state outside the single decrement')
-    step = '(let n_before := n in let n_after := dec n in (n_after, %s))' % term
     return TARGETS[target], dict(step=step, rbc=(i_if < i_call), shared=shared)
 
 
